@@ -80,7 +80,7 @@ H("enc_finish_slice", ["C06", "C03", "C01"], "core", *ENC,
 
 ST = ("tonic/src/status.rs", "tonic/status.rs")
 H("st_code_from_bytes", ["C04"], "core", *ST, obligation="H1: Code::from_bytes == reference grammar ('0'..'16' canonical decimal, else UNKNOWN)",
-  functions=["tonic::Code::from_bytes"], bounds="all byte strings of length 0..=3 (symbolic length)")
+  functions=["tonic::Code::from_bytes"], bounds="all byte strings of length 0..=16 (symbolic length)")
 H("st_code_roundtrip", ["C04"], "core", *ST, obligation="H1: for all 17 codes: from_i32/i32::from agree with the gRPC table, header text is the "
   "canonical decimal, from_bytes(to_header_value(c)) == c", functions=["tonic::Code::to_header_value", "tonic::Code::from_bytes", "tonic::Code::from_i32"],
   bounds="all 17 codes")
